@@ -178,7 +178,11 @@ def getDirectoryCounts (footer : Eocd) (cdeStart : Nat) : M (Nat × Nat × Nat) 
       | .ok l => pure (some l)
       | .error .invalidArchive => pure none
       | .error e => throw e
-    | .error _ => pure none
+    -- the file is too short to hold a locator in front of the footer: the seek to a negative
+    -- position is refused (`InvalidInput`), nothing to look at
+    | .error (.io .invalidInput) => pure none
+    -- any other failure of the seek is a real I/O error (the D18 repair)
+    | .error e => throw e
   match loc with
   | none =>
     let sz := footer.cdSize.toNat
